@@ -478,8 +478,7 @@ def _nesting_rules(ctx, pm_, g, lp, node_var, pl, gl) -> None:
             ctx.fail("R17f", pm_, n.ast, inst, "a blank or comment line reaches this reset: `Block: A`, an empty line, then the "
                      "correctly indented body - the body line is flagged as an indentation error because the increase is no "
                      "longer expected")
-    if n_reset < 3:
-        raise AnchorError(f"parse_method: only {n_reset} resets of the pending-increase flag found (floor 3)")
+    ctx.floor("R17f", 3)
     # ---- R17g / R17h
     line_par = pl.node.args.args[1].arg
     ldefs = local_single_defs(pl)
@@ -508,8 +507,7 @@ def _nesting_rules(ctx, pm_, g, lp, node_var, pl, gl) -> None:
             else:
                 ctx.fail("R17g", pl, c, inst, f"the column is `{norm(ch)}` whatever the line's indentation: such a line is attached at "
                          "column 0, closes the enclosing bodies, and the lines after it are flagged although they are indented correctly")
-    if n_pos < 4:
-        raise AnchorError(f"_parse_line: only {n_pos} Position constructions found (floor 4)")
+    ctx.floor("R17g", 4)
     # R17h: every `X.indent_error = True` guarded by a `% 4` test is also guarded (same test, disjunction) by a spaces-only test,
     # or the grammar's indent group matches spaces only
     from .. import regexlang as _rl  # noqa: F401
